@@ -262,6 +262,24 @@ class Interp(MiniEval):
                 # applying a compiled regex is never interpreted: the caller supplies the abstract matcher
                 hook = self.stubs[f're.Pattern.{attr}']
                 return lambda *a, **kw: hook(base, *a, **kw)
+            if base.has('__isa__') and 're.Pattern' in base.get('__isa__') and self.shared.get('regex_engine') \
+                    and attr in ('match', 'search', 'fullmatch', 'finditer', 'sub'):
+                # ... or asks for the analyser's own matcher over the regex source (sa.rematch), on short abstract strings
+                from . import rematch
+                key = ('rematch', base.get('pattern'), int(base.get('flags') or 0))
+                if key not in self.shared:
+                    try:
+                        self.shared[key] = rematch.Pattern(base.get('pattern'), int(base.get('flags') or 0))
+                    except rematch.Unsupported as e:
+                        raise Unsupported(f'regex outside the matcher: {e}')
+                eng = self.shared[key]
+
+                def apply_(*a, _m=getattr(eng, attr), **kw):
+                    try:
+                        return _m(*a, **kw)
+                    except rematch.Unsupported as e:
+                        raise Unsupported(f'regex outside the matcher: {e}')
+                return apply_
             cq = object.__getattribute__(base, '_cls')
             if cq:
                 mq = self.src.find_method(cq, attr)
@@ -287,6 +305,9 @@ class Interp(MiniEval):
             raise Unsupported(f'{base.qual}.{attr}')
         if isinstance(base, Sym):
             return Sym(f'{base.name}.{attr}')
+        if type(base).__name__ == 'Match' and type(base).__module__.endswith('rematch') and attr in (
+                'group', 'groups', 'groupdict', 'start', 'end', 'span', 'string'):
+            return getattr(base, attr)
         if getattr(type(base), '_is_abstract_node', False) and attr in ('parent', 'next_sibling', 'previous_sibling', 'next_element',
                                                                        'previous_element', 'name', 'kind'):
             return getattr(base, attr)
